@@ -79,6 +79,33 @@ def run(ctx, B):
             V("ComptonEnergy|monotone|%s" % cls(E), "ComptonEnergy(%g, theta) not decreasing from E to E/(1+2E/mc2): %r ... %r" % (E, c[:3].tolist(), c[-3:].tolist()),
               [dict(fn="ComptonEnergy", args=[float(E), 0.0]), dict(fn="ComptonEnergy", args=[float(E), math.pi])])
         nt += 4
+    # ---- angles next to 0, pi/2, pi and their images (theta0 +- delta): the formulas have removable cancellations there (1 - cos near 0, 1 + cos near pi)
+    th0 = [0.0, math.pi / 2, math.pi, -math.pi, 2 * math.pi, 3 * math.pi]
+    dl = [1e-2, 1e-4, 1e-5, 1e-6, 1e-7, 3e-8, 1e-8, 1e-10]
+    th2 = np.array(sorted(set([t + sg * d for t in th0 for d in dl for sg in (1, -1)] + th0)))
+    EE2, TT2 = domains.product(Es, th2)
+    ce2 = X.call("ComptonEnergy", EE2, TT2); dk2 = X.call("DCS_KN", EE2, TT2); dt2 = X.call("DCS_Thoms", TT2)
+    ctx.add(evaluations=3 * len(EE2))
+    a2 = EE2 / MEC2
+    u2 = 2.0 * np.sin(TT2 / 2.0) ** 2                      # 1 - cos(theta) without cancellation
+    exact = EE2 / (1.0 + a2 * u2)
+    with np.errstate(all="ignore"):
+        relc = np.abs(ce2["v0"] - exact) / exact
+        # the library forms 1 - cos(theta) in double precision: absolute error ~1e-16 in u, i.e. ~1e-16 * a relative in the result
+        badc = ((ce2["flags"] & F_ERR) != 0) | ~(relc <= 1e-12 + 2e-15 * a2) | (ce2["v0"] > EE2 * (1 + 1e-14)) | (ce2["v0"] < EE2 / (1 + 2 * a2) * (1 - 1e-12 - 2e-15 * a2))
+        k2 = ce2["v0"] / EE2
+        form2 = (RE2 / 2.0) * k2 * k2 * (k2 + 1.0 / k2 - np.sin(TT2) ** 2)
+        badf = ~(np.abs(dk2["v0"] - form2) <= 1e-10 * form2) | ((dk2["flags"] & F_ERR) != 0)
+        badt = dk2["v0"] > dt2["v0"] * (1 + 1e-12)
+    for j in np.nonzero(badc)[0][:10]:
+        V("ComptonEnergy|near-special-angle|%s" % cls(EE2[j]), "ComptonEnergy(%r, %r) = %r, E/(1+(E/mc2)(1-cos theta)) = %r (must lie in [E/(1+2E/mc2), E])" % (
+            float(EE2[j]), float(TT2[j]), float(ce2["v0"][j]), float(exact[j])), [dict(fn="ComptonEnergy", args=[float(EE2[j]), float(TT2[j])], expect=dict(type="value", value=float(exact[j]), rtol=float(1e-12 + 2e-15 * a2[j])))])
+    for j in np.nonzero(badf)[0][:10]:
+        V("DCS_KN|vs-ComptonEnergy-form|near-special-angle|%s" % cls(EE2[j]), "DCS_KN(%r,%r)=%r but (r_e^2/2)k^2(k+1/k-sin^2)=%r with k=ComptonEnergy/E" % (
+            float(EE2[j]), float(TT2[j]), float(dk2["v0"][j]), float(form2[j])), [dict(fn="DCS_KN", args=[float(EE2[j]), float(TT2[j])], expect=dict(type="value", value=float(form2[j]), rtol=1e-10))])
+    for j in np.nonzero(badt)[0][:10]:
+        V("DCS_KN|exceeds-Thomson|near-special-angle", "DCS_KN(%r,%r)=%r > DCS_Thoms=%r" % (float(EE2[j]), float(TT2[j]), float(dk2["v0"][j]), float(dt2["v0"][j])), [dict(fn="DCS_KN", args=[float(EE2[j]), float(TT2[j])])])
+    nt += len(th2)
     # ---- CS_KN = 2 pi int DCS_KN sin(theta) dtheta : Gauss-Legendre in u = 1 - cos(theta) --------
     U, W = gl_panels()
     U2, W2 = gl_panels(48, 64)
